@@ -5,6 +5,7 @@ import (
 	"go/ast"
 	"go/constant"
 	"go/token"
+	"go/types"
 	"os"
 	"strings"
 
@@ -138,7 +139,7 @@ func extractOf(call ssa.Value, idx int) ssa.Value {
 }
 
 func ruleBuilderVisitsAll(w *core.World, r *core.Report, b *ssa.Function) {
-	cmds := param(b, "cmds")
+	cmds := paramOf(b, "bisyncAofCommand", "cmds")
 	// resolver call inside a forward range over cmds
 	var res core.Site
 	for _, s := range core.Sites(b, false) {
@@ -388,8 +389,22 @@ func ruleControlKeys(w *core.World, r *core.Report) {
 				// the operand inside the braces is the slotTag parameter: verbs before {%s}
 				verbs := strings.Count(format[:strings.Index(format, "{%s}")], "%")
 				if 1+verbs < len(call.Args) {
-					if id, isID := call.Args[1+verbs].(*ast.Ident); isID && id.Name == "slotTag" {
-						ok = true
+					// the operand inside the braces is the constructor's second parameter: the position
+					// at which the dispatcher hands over the unit's slot tag (checked below)
+					if id, isID := call.Args[1+verbs].(*ast.Ident); isID {
+						var second types.Object
+						k := 0
+						for _, fl := range fd.Type.Params.List {
+							for _, nm := range fl.Names {
+								if k == 1 {
+									second = p.TypesInfo.Defs[nm]
+								}
+								k++
+							}
+						}
+						if second != nil && p.TypesInfo.Uses[id] == second {
+							ok = true
+						}
 					}
 				}
 			}
@@ -529,7 +544,8 @@ func ruleRefusalReasons(w *core.World, r *core.Report, b *ssa.Function) {
 			if _, isE := v.(*ssa.Extract); isE && !last.Val {
 				okReason = true
 			}
-			if ph, isPhi := v.(*ssa.Phi); isPhi && ph.Comment == "slotKnown" && !last.Val {
+			// "no slot recorded yet": a boolean that starts false and is only ever set to true
+			if ph, isPhi := v.(*ssa.Phi); isPhi && !last.Val && isSeenFlag(ph) {
 				okReason = true
 			}
 		}
@@ -538,4 +554,37 @@ func ruleRefusalReasons(w *core.World, r *core.Report, b *ssa.Function) {
 		}
 	})
 	r.Check(bad == "" && n >= 4, "buildBisyncReplayUnit/refusal-reasons", badPos, "%s (refusing paths=%d)", bad, n)
+}
+
+// isSeenFlag: a loop-carried boolean whose only definitions are the constants
+// false (initially) and true.
+func isSeenFlag(ph *ssa.Phi) bool {
+	hasT, hasF := false, false
+	seen := map[*ssa.Phi]bool{}
+	ok := true
+	var walk func(p *ssa.Phi)
+	walk = func(p *ssa.Phi) {
+		if seen[p] {
+			return
+		}
+		seen[p] = true
+		for _, e := range p.Edges {
+			if q, isPhi := e.(*ssa.Phi); isPhi {
+				walk(q)
+				continue
+			}
+			b, isC := core.ConstBool(e)
+			if !isC {
+				ok = false
+				continue
+			}
+			if b {
+				hasT = true
+			} else {
+				hasF = true
+			}
+		}
+	}
+	walk(ph)
+	return ok && hasT && hasF
 }
